@@ -103,6 +103,12 @@ def cases(tier, seed):
                     for rep in ("dense", "csr"):
                         out.append(dict(sizes=list(sizes), E=E, k=1, support=[[1]], pattern="dense",
                                         fd=fd, mask=None, hermitian=True, repr=rep, vset=0, total=4))
+    # fully symbolic entries on the smallest structures (decides the identities for all values)
+    sym = []
+    for st in lattice.structures(3, hermitian=True, ks=(1,), patterns=("dense",),
+                                 supports={1: [[(1,)]] if tier == "quick" else [[(1,)], [(1,), (2,)]]}):
+        sym.append(dict(st, repr="symbolic", symbolic=True, vset=0, total=3))
+    out = sym + out  # the longest jobs first
     for c in out:
         c["seed"] = seed
     # both request orders on alternating cases (lower/upper triangle first)
@@ -112,5 +118,17 @@ def cases(tier, seed):
 
 
 def run_props(case, props):
+    if case.get("symbolic"):
+        from .. import symbolic
+        from ..lattice import is_H0_zero_single_block
+
+        if is_H0_zero_single_block(case):
+            return dict(violations=[], nontrivial=False, outcome="rejected-by-design(H0=0)", sample=describe(case))
+        try:
+            V = symbolic.run_symbolic(case, props)
+        except Exception as e:  # noqa: BLE001
+            V = [f"symbolic run raises {type(e).__name__}: {str(e)[:120]}"]
+        return dict(violations=[dict(what=w, key=None) for w in V[:4]], nontrivial=len(case["sizes"]) > 1 or bool(case["fd"]) or True,
+                    outcome="symbolic-" + ("ok" if not V else "violation"), stats=dict(symbolic_runs=1), sample=describe(case))
     res = run_cfg(case, case["seed"], props, case.get("req", "asc"))
     return {k: v for k, v in res.items() if not k.startswith("_")} | {"sample": describe(case)}
